@@ -7,7 +7,7 @@ ID = "C07"
 STATEFUL = True     # some blocks keep a live object across lines
 LEAN_TARGETS = ["Cider.Props.C07", "Cider.Props.C02Tie"]
 OPTIONAL_TARGETS = ["Cider.Props.C07Src"]
-OPTIONAL_THEOREMS = {"Cider.Props.C07Src": ['Cider.C07Src.triples_eq', 'Cider.C07Src.triples_in_range', 'Cider.C07Src.exp_denom_eq']}
+OPTIONAL_THEOREMS = {"Cider.Props.C07Src": ['Cider.C07Src.triples_eq', 'Cider.C07Src.triples_in_range', 'Cider.C07Src.exp_denom_eq', 'Cider.C07Src.scdLoop_eq_sum_modelTriples', 'Cider.C07Src.scd_of_source_triples']}
 P = "Cider.C07."
 THEOREMS = ["Cider.C02.gen_charge_eq_published"] + [P + t for t in (
     "scdLoop_eq_spec", "scd_eq_lagform", "scd_zero_of_few_charges", "scd_pattern_only", "scd_reverse", "scd_negate")]
